@@ -452,8 +452,11 @@ static Type *declspec(Token **rest, Token *tok, VarAttr *attr) {
         error_tok(tok, "_Alignas is not allowed in this context");
       tok = skip(tok->next, "(");
 
+      // C11 6.7.5p6: with several alignment specifiers the strictest
+      // one wins (zero has no effect).
       if (is_typename(tok)) {
-        attr->align = typename(&tok, tok)->align;
+        int align = typename(&tok, tok)->align;
+        attr->align = MAX(attr->align, align);
       } else {
         Token *start = tok;
         int64_t val = const_expr(&tok, tok);
@@ -461,7 +464,7 @@ static Type *declspec(Token **rest, Token *tok, VarAttr *attr) {
         // a power of two; the object format limits it to 2^28.
         if (val < 0 || val > (1 << 28) || (val & (val - 1)))
           error_tok(start, "requested alignment is not a power of 2 between 1 and 2^28");
-        attr->align = val;
+        attr->align = MAX(attr->align, val);
       }
       tok = skip(tok, ")");
       continue;
